@@ -539,6 +539,10 @@ func totalChainctxStructured(r *Rng) []totalChainctxTab {
 	add("fmt-wrap-1_1", totalChainctxW(0xffcf, 6, 1, 1, 1, 5))
 	add("fmt-wrap-none", totalChainctxW(0xffc4, 6, 1, 1, 1, 5))
 	add("fmt-65535", totalChainctxW(0xffff, 0, 0))
+	// keys that collide without wrapping: 10*6+11 = 71 (7_1, extension), 10*6+21 = 81 (8_1)
+	add("fmt-collide-7_1", totalChainctxW(11, 6, 0, 0, 8, 0, 1, 0))
+	add("fmt-collide-8_1", totalChainctxW(21, 10, 0, 0, 0, 1, 1, 5))
+	add("fmt-10", totalChainctxW(10, 6, 0, 0, 8, 0, 1, 0))
 	// size caps of formats 1 and 2: a rule set beyond 0xFFFF through aliased rules
 	big := R(make([]int, 900), nil, nil, nil)
 	bigSet := make([]totalChainctxRule, 40)
